@@ -55,6 +55,16 @@ def run(tier, seed, replay):
         for extra in ({"quiet": True}, {"quiet": True, "stub": True}):
             q = dict(c, id=c["id"] + "q" + ("s" if extra.get("stub") else ""), flags=dict(c["flags"], **extra))
             qspecs.append(q)
+    # spellings: --flag=false is the same as no flag, --flag=true / =1 the same as the bare flag
+    sspecs, smap = [], []
+    for b, sp in enumerate(base[: (30 if tier == "quick" else 300)]):
+        for name, j_equiv, extra in [("=false both", 0, ["--ignore-missing-params=false", "--ignore-missing-services=false"]),
+                                     ("params=false services", 2, ["--ignore-missing-params=false", "--ignore-missing-services"]),
+                                     ("params=true", 1, ["--ignore-missing-params=true"]), ("services=1 params=0", 2, ["--ignore-missing-services=1", "--ignore-missing-params=0"])]:
+            c = dict(sp, id="%s.s%s" % (sp["id"], name), flags={"quiet": False, "stub": False}, extra_args=extra, keep_out=False)
+            sspecs.append(c)
+            smap.append((4 * b + j_equiv, name))
+    sobs = build.gx_run(tooldir, sspecs)
     qobs = build.gx_run(tooldir, qspecs)
     common.real_sanity(out, qspecs, qobs, "C16")
     for k, c in enumerate(specs):
@@ -72,6 +82,10 @@ def run(tier, seed, replay):
                               dict(common.slim(qspecs[2 * k + d], qo), without_quiet={"exit": obs[k].get("exit"), "errors": obs[k].get("errors")}))
             if qo.get("stdout"):
                 out.violation("quiet-prints", "--quiet printed something", common.slim(qspecs[2 * k + d], qo))
+    for (ref, name), sp_, so in zip(smap, sspecs, sobs):
+        if so.get("exit") != obs[ref].get("exit") or (so.get("errors") or []) != (obs[ref].get("errors") or []) or so["out_after"].get("hash") != obs[ref]["out_after"].get("hash"):
+            out.violation("flag-spelling:%s" % name, "the command line %s does not behave like its canonical spelling" % sp_["extra_args"],
+                          dict(common.slim(sp_, so), canonical={"exit": obs[ref].get("exit"), "errors": obs[ref].get("errors")}))
     common.real_sanity(out, specs, obs, "C16")
     common.correspondence(out, env, specs, obs, "C16 run/report/compile", verdict_claim="with a flag set a configuration is accepted iff all its remaining violations belong to an ignored class")
     nontrivial = set()
